@@ -312,4 +312,33 @@ def holderSecret (H : Bytes → Bytes) (k : KeyMaterial) (n : Nat) : Option Byte
   if n ≤ INITIAL_COMMITMENT_NUMBER then some (commitSecret H k.commitmentSeed (INITIAL_COMMITMENT_NUMBER - n))
   else none
 
+/-- `Channel::release_commitment_secret(N)` as reached by `revoke_previous_holder_commitment(N)` with
+`N ≠ next_holder_commit_num` (a repeated revocation; the protocol's `RevokeCommitmentTx{N-1}`):
+`(point(N+1), secret(N-1) if N ≥ 1)`.  The point needs `N + 1 ≤ next + 1`, the secret `N - 1 + 2 ≤ next`;
+with `N = next` the state-changing branch is taken, which refuses when no validated commitment is
+pending (the only situation the history model has between two `advance` ops).  `none` = `Err`.
+First component: the released secret (`none` for `N = 0`); second: the secret whose secp256k1 image
+is the returned next point. -/
+def revokeReply (H : Bytes → Bytes) (c : Chan) (N : Nat) : Option (Option Bytes × Option Bytes) :=
+  if c.ready && N < c.nextHolder then
+    some (if N = 0 then none else holderSecret H c.keys (N - 1), holderSecret H c.keys (N + 1))
+  else none
+
+/-- what one `advance` (validate commitment `n = next`, then activate / revoke) hands back:
+the secret of `n - 1` (none for `n = 0`) and the secret behind the point of `n + 1` -/
+def advanceReply (H : Bytes → Bytes) (c : Chan) : Option (Option Bytes × Option Bytes) :=
+  if c.ready then
+    some (if c.nextHolder = 0 then none else holderSecret H c.keys (c.nextHolder - 1),
+          holderSecret H c.keys (c.nextHolder + 1))
+  else none
+
+/-- the pre-v6 protocol's `GetPerCommitmentPoint(n)` reply: `point(n)` and, for `n ≥ 2`,
+`get_per_commitment_secret(n - 2)` (an error of either fails the request).  First component: the
+secret behind the point; second: the disclosed old secret. -/
+def oldGetPointReply (H : Bytes → Bytes) (c : Chan) (n : Nat) : Option (Option Bytes × Option Bytes) :=
+  if !pointAllowed c n then none
+  else if n < 2 then some (holderSecret H c.keys n, none)
+  else if secretReleasable c (n - 2) then some (holderSecret H c.keys n, holderSecret H c.keys (n - 2))
+  else none
+
 end VlsModel.Keys
